@@ -271,9 +271,19 @@ def schemaBound (fs : Facts) (dt : Str) (o : Option Str) : Option Val :=
   | some s => if s.isEmpty then none else inp fs dt s
   | none => none
 
+/-- Python `a <= b` between two values of one mapped type, as `vol.Range` evaluates it (`none` = the
+    comparison is outside the model): numbers and date/time values by their order key, strings
+    lexicographically by code point -/
+def leVal (a b : Val) : Option Bool :=
+  match a, b with
+  | .str x, .str y => some (!(decide (y < x)))
+  | _, _ => match keyOf a, keyOf b with
+    | some x, some y => some (decide (x ≤ y))
+    | _, _ => none
+
 def inRange (lo hi : Option Val) (v : Val) : Bool :=
-  (match lo with | some l => (match keyOf l, keyOf v with | some a, some b => a ≤ b | _, _ => false) | none => true)
-  && (match hi with | some h => (match keyOf v, keyOf h with | some a, some b => a ≤ b | _, _ => false) | none => true)
+  (match lo with | some l => (leVal l v).getD false | none => true)
+  && (match hi with | some h => (leVal v h).getD false | none => true)
 
 /-- a `bool` passed where the mapped Python type is `int` *is* an int for the schema
     (`isinstance(True, int)`, `True == 1`) and for the `out` coercer `str(int(i))` -/
